@@ -1359,6 +1359,10 @@ impl<'a> UserModel<'a> {
         column_end: i32,
         width: f64,
     ) -> Result<(), String> {
+        self.validate_column_range(sheet, column_start, column_end)?;
+        if width < 0.0 {
+            return Err(format!("Can not set a negative width: {width}"));
+        }
         let mut diff_list = Vec::new();
         for column in column_start..=column_end {
             let old_value = self.model.get_column_width(sheet, column)?;
@@ -1385,6 +1389,7 @@ impl<'a> UserModel<'a> {
         column_end: i32,
         hidden: bool,
     ) -> Result<(), String> {
+        self.validate_column_range(sheet, column_start, column_end)?;
         let mut diff_list = Vec::new();
         for column in column_start..=column_end {
             let old_value = self
@@ -1453,6 +1458,7 @@ impl<'a> UserModel<'a> {
         row_end: i32,
         hidden: bool,
     ) -> Result<(), String> {
+        self.validate_row_range(sheet, row_start, row_end)?;
         let mut diff_list = Vec::new();
         for row in row_start..=row_end {
             let old_value = self.model.workbook.worksheet(sheet)?.is_row_hidden(row)?;
@@ -1508,6 +1514,10 @@ impl<'a> UserModel<'a> {
         row_end: i32,
         height: f64,
     ) -> Result<(), String> {
+        self.validate_row_range(sheet, row_start, row_end)?;
+        if height < 0.0 {
+            return Err(format!("Can not set a negative height: {height}"));
+        }
         let mut diff_list = Vec::new();
         for row in row_start..=row_end {
             let old_value = self.model.get_row_height(sheet, row)?;
@@ -2303,6 +2313,39 @@ impl<'a> UserModel<'a> {
     }
 
     // **** Private methods ****** //
+
+    /// Checks that `sheet` exists and that the (inclusive) column range is inside the grid.
+    /// Called before mutating column by column so that a failing call changes nothing.
+    fn validate_column_range(
+        &self,
+        sheet: u32,
+        column_start: i32,
+        column_end: i32,
+    ) -> Result<(), String> {
+        self.model.workbook.worksheet(sheet)?;
+        if column_start <= column_end {
+            for column in [column_start, column_end] {
+                if !is_valid_column_number(column) {
+                    return Err(format!("Column number '{column}' is not valid."));
+                }
+            }
+        }
+        Ok(())
+    }
+
+    /// Checks that `sheet` exists and that the (inclusive) row range is inside the grid.
+    /// Called before mutating row by row so that a failing call changes nothing.
+    fn validate_row_range(&self, sheet: u32, row_start: i32, row_end: i32) -> Result<(), String> {
+        self.model.workbook.worksheet(sheet)?;
+        if row_start <= row_end {
+            for row in [row_start, row_end] {
+                if !is_valid_row(row) {
+                    return Err(format!("Row number '{row}' is not valid."));
+                }
+            }
+        }
+        Ok(())
+    }
 
     pub(crate) fn push_diff_list(&mut self, diff_list: DiffList) {
         self.send_queue.push(QueueDiffs {
